@@ -27,9 +27,17 @@ inductive Outcome where
   | wakeSelf           -- `cx.waker().wake_by_ref()` then Pending
   | cloneWaker         -- stores a clone of its waker somewhere, then Pending
   | remoteWake         -- hands a clone of its waker to another thread, which wakes it at once; then Pending
+  | wakeReady          -- `cx.waker().wake_by_ref()` and, in the same poll, Ready(v)
+  | wakePanic          -- `cx.waker().wake_by_ref()` and, in the same poll, panics
+  | cloneReady         -- stores a clone of its waker somewhere and, in the same poll, Ready(v)
   | ready              -- returns Ready(v)
   | panic              -- panics (caught: the result is the panic payload)
   deriving DecidableEq, Repr
+
+/-- the poll ends in a (caught) panic -/
+def Outcome.panics : Outcome → Bool
+  | .panic | .wakePanic => true
+  | _ => false
 
 inductive Storage where
   | future | resultOk | resultPanic | empty
@@ -168,6 +176,7 @@ inductive RunKind where
   | wokeSelf     -- polled, woke itself, Pending
   | remoteWoke   -- polled, had itself woken from another thread, Pending
   | finished     -- polled, Ready: result published, `Task::drop`, removed
+  | finishedWoke -- the same, but the future woke its own task (`Local::schedule`) before returning Ready
   deriving DecidableEq, Repr
 
 /-- `Task::run` on the task alone; on Ready (cancelled, or the future finished) also `Task::drop` and the
@@ -192,27 +201,34 @@ def runTask (t : TaskSt) : TaskSt × RunKind × Option Nat :=
       -- the clone handed to the other thread is consumed by `wake()` there: the count is back where it was
       ({ t with polls := t.polls + 1, badPolls := t.badPolls + bad, script := rest }, .remoteWoke, none)
     | o :: rest =>
-      -- Ready (value or caught panic): the future is dropped, the result written, then published
-      let st := if o = .panic then Storage.resultPanic else Storage.resultOk
+      -- Ready (value or caught panic), possibly after waking itself or cloning its waker in this very poll:
+      -- the future is dropped, the result written, then published
+      let t := if o = .cloneReady then { t with word := TaskState.inc t.word, wakers := t.wakers + 1 } else t
+      let st := if o.panics then Storage.resultPanic else Storage.resultOk
       let t := { t with polls := t.polls + 1, badPolls := t.badPolls + bad, script := rest,
                         futDrops := t.futDrops + 1, storage := st }
       let old2 := t.word
       let t := { t with word := TaskState.finishRunning old2 }
       let woken := if TaskState.hasWaker old2 && !TaskState.isSettingWaker old2 then t.slot else none
-      (dropRef (taskDropByExecutor t), .finished, woken)
+      (dropRef (taskDropByExecutor t), if o = .wakeReady ∨ o = .wakePanic then .finishedWoke else .finished, woken)
 
 /-- `Task::run` + the tail of the loop body of `Executor::tick` for one task id that has just been made
 cold. Returns the new executor state and whether the task was polled. -/
 def runOne (e : Exec) (id : Nat) : Exec × Bool :=
   match e.get? id with
   | none => (e, false)
-  | some t =>
-    match runTask t with
+  | some t0 =>
+    match runTask t0 with
     | (t, .dropped, _) => (removeTask (e.setTask id t) id, false)
     | (t, .pending, _) => (e.setTask id t, true)
     | (t, .wokeSelf, _) => (scheduleLocal (e.setTask id t) id, true)
     | (t, .remoteWoke, _) => (remoteScheduleGuarded (e.setTask id t) id, true)
     | (t, .finished, w) => ({ removeTask (e.setTask id t) id with woken := e.woken ++ w.toList }, true)
+    | (t, .finishedWoke, w) =>
+      -- the wake-up came first, while the word only had SCHEDULED cleared: `Local::schedule` moved the id
+      -- (made cold by `tick`) back to the hot tail; `queue.remove(id)` must unlink it from the HOT list
+      let e1 := scheduleLocal (e.setTask id { t0 with word := TaskState.unschedule t0.word }) id
+      ({ removeTask (e1.setTask id t) id with woken := e.woken ++ w.toList }, true)
 
 /-- successor of `id` in the hot list (`TaskQueue::next_hot`) -/
 def nextHot : List Nat → Nat → Option Nat
